@@ -229,6 +229,52 @@ R.contract(
     },
 )
 
+# ------------------------------------------------------------------------------------------------- is_non_empty_query: a "negative" query must survive encoding
+def _urlencode(it, a, k):
+    """E5 urllib.parse.urlencode(pairs, doseq): one `k=v` per pair; with doseq a sequence value gives one `k=x` per element (none when empty). "" iff nothing is emitted."""
+    import z3
+    from pyvc.values import wrap
+
+    pairs = it.iterate_all(a[0])
+    doseq = k.get("doseq", a[1] if len(a) > 1 else False)
+    emitted = 0
+    for _key, value in pairs:
+        if doseq is True and isinstance(value, (list, tuple, dict)):
+            emitted += len(value)  # (anything with a len() that is not str / bytes is treated as a sequence of values)
+        else:
+            emitted += 1
+    if emitted == 0:
+        return ""
+    out = it.path.fresh("urlencoded")
+    z = z3.String(out)
+    it.path.assume(z3.Length(z) > 0)
+    return wrap(z)
+
+
+R.extern["urllib.parse.urlencode"] = _urlencode
+QVal = OneOf(Const("text"), Const(""), Int, NoneT, Const([]), Const(["x"]), Const([[]]), Const([None]), Const([[], []]), Const([{}]), Const([[], "x"]))
+R.contract(
+    "schemathesis.specs.openapi.negative:is_non_empty_query",
+    prop="C02",
+    args={"query": DictOf(optional={"a": QVal, "b": QVal})},
+    ensures={
+        # a query counts as present only if something of it reaches the wire: some value that is not None and not an empty (or only-empty) container
+        "true_iff_something_is_encoded": "iff(result, any(encodes_something(query[k]) for k in query))",
+    },
+)
+
+
+def _encodes_something(it, v):
+    """requests / urlencode(doseq=True): a scalar is sent; a list sends one pair per element that is itself sendable (None and empty containers are dropped)."""
+    if v is None:
+        return False
+    if isinstance(v, (list, tuple)):
+        return any(x is not None and not (isinstance(x, (list, tuple, dict)) and len(x) == 0) for x in v)
+    return True
+
+
+R.spec_funcs["encodes_something"] = _encodes_something
+
 def _n_mode(name):
     def f():
         from schemathesis.generation import GenerationMode
@@ -248,3 +294,6 @@ def _n_part_is_present(case, kind):
 
 NATIVE = {"helpers": {"is_plain_string": lambda schema: len(schema) == 1 and schema.get("type") == "string", "NEGATIVE": _n_mode("NEGATIVE"), "POSITIVE": _n_mode("POSITIVE"),
                       "part_is_present": _n_part_is_present}}
+
+
+NATIVE["helpers"]["encodes_something"] = lambda v: False if v is None else (any(x is not None and not (isinstance(x, (list, tuple, dict)) and len(x) == 0) for x in v) if isinstance(v, (list, tuple)) else True)
